@@ -52,6 +52,10 @@ def design_runs(ctx, tier):
         raise HarnessError("Cache_beforefix.cfg no longer shows the FinalizeOnce counterexample: the model lost its "
                            "sensitivity to F20/F21:\n%s" % r["out"][-1500:])
     res["beforefix"] = r
+    r = tlc_mc(ctx, "Cache.tla", "Cache_ascoded_F29.cfg", timeout=600, expect_violation=True,
+               label="Cache with mBucket.delete leaving the delete funcs on the removed node (before fix 319ed8d; expected to break CallbackOnce)")
+    if not r["violated"] or "Invariant CallbackOnce is violated" not in r["out"]:
+        raise HarnessError("Cache_ascoded_F29.cfg no longer shows the CallbackOnce counterexample (F29)")
     res["beforefix_excl"] = tlc_mc(ctx, "Cache.tla", "Cache_beforefix_excl.cfg", timeout=600,
                                    label="Cache before the fixes under CloseExcl (Close never overlaps Release)")
     return res
